@@ -115,7 +115,13 @@ Inductive stmt :=
 | SCall (f : N) (args : list expr)
 | SReturn (e : option expr)
 | SReturnState (st : N)                            (* return(lookup); ... in a procedure *)
-| SNop                                             (* break; / fallthrough; as statements: nothing *)
+| SNop                                             (* break; / fallthrough; / goto x; / x: as statements: nothing
+                                                      (goto is not implemented by the interpreter) *)
+| SAdd (o h : N) (e : expr)                        (* add <obj>.http.<h> = e; *)
+| SRestart (allowed : bool)                        (* restart;  allowed: the scope is RECV/HIT/FETCH/ERROR/DELIVER *)
+| SError (allowed : bool) (gs gr : N) (code arg : option expr)
+    (* error [code [response]];  allowed: scope RECV/HIT/MISS/PASS/FETCH; gs / gr: the ctx cells
+       ctx.ObjectStatus / ctx.ObjectResponse it assigns *)
 | SSwitch (c : expr) (cases : list (ctest * list stmt * bool)) (dflt : option nat)
 with ctest :=
 | CDefault
@@ -252,6 +258,8 @@ Inductive outcome :=
 | ONorm
 | OBare                            (* `return;` travelling to the subroutine boundary *)
 | OVal (l : nat) (direct : bool)   (* `return e;` - direct: not yet passed through an enclosing if *)
-| OState (st : N).                 (* return(<state>): ends every enclosing subroutine *)
+| OState (st : N).                 (* return(<state>), restart, error: ends every enclosing subroutine *)
+Definition st_restart : N := 100.
+Definition st_error : N := 101.
 Definition demote (o : outcome) : outcome :=
   match o with OVal l _ => OVal l false | _ => o end.
